@@ -123,7 +123,7 @@ def _compare_tokens(src, ref, res, fam, case, lexfn):
         a = ad[k]
         r = ref[k]
         akind, adata, aline, acol, atok = a
-        if akind == 'keyword' and r.kind == 'name' and r.text.startswith(adata):
+        if akind == 'keyword' and r.kind == 'name' and r.text.startswith(adata) and len(r.text) > len(adata):
             res.violation('C07|keyword-split-from-name|%s' % ('high-byte' if r.text[len(adata)] >= 0x80 else 'ascii'),
                           '%r: lexed as keyword %r + rest, grammar says one name %r' % (src, adata, r.text), case)
             return
@@ -276,6 +276,7 @@ def keyword_embeddings():
             out.append(kw[:1] + ch + kw[1:])
             out.append(kw + ch + b' ' + kw)
             out.append(kw.upper())
+            out.append(kw.capitalize() + b'=' + kw[:-1] + kw[-1:].upper())
             out.append(kw + b'(' + ch + b')' if ch != b'9' else kw + b'(9)')
     return out
 
